@@ -31,15 +31,16 @@ func init() {
 		ID:    "C16",
 		Race:  true,
 		Level: "exploration",
-		Rule: "(1) patterns from a regex grammar (literals, classes, alternation, groups <= 12, quantifiers, anchors, (?i)), subjects over the pattern alphabet, replacement templates with $1..$12 adjacent to digits and letters: matches()/replace() through Evaluate with literal and node-set arguments vs Go's regexp; invalid constant patterns must be rejected by Compile. " +
+		Rule: "(1) patterns from a regex grammar (literals, classes, alternation, groups <= 12, quantifiers, anchors, (?i)), subjects over the pattern alphabet, replacement templates with $1..$12 adjacent to digits and letters: matches()/replace() through Evaluate with literal and node-set arguments vs Go's regexp; invalid constant patterns must be rejected by Compile; NON-constant patterns and templates taken from document values (string(@p)), one compiled expression evaluated on many nodes with different patterns. " +
 			"(2) sequential: EVERY key sequence of length <= 6 over 4 keys x capacities {0,1,2,3,8} x load-failure scripts; concurrent: 2-16 goroutines x 20-60 gets over 2-6 keys, capacities {0,1,2,3,8}, load() yielding/blocking on a barrier to force several goroutines through the miss window together, an observer goroutine sampling the cache statistics hook; swapped RegexpCache with a custom loader and small capacity driven through matches()/replace(). " +
 			"Non-trivial: a regex case whose subject matches, or a cache history with at least one reset or one overlapping pair of loads; distinct by (pattern, subject, template) resp. (capacity, key sequence / interleaving signature).",
 		Assume:        []string{"Go's regexp package is the definition of matches()/replace() (as the statement says)", "the statistics hook takes the cache's own read lock"},
 		MinNontrivial: tierN(15000, 200000),
-		Required:      []string{"regex:matches", "regex:replace", "regex:invalid-constant-rejected", "cache:seq", "cache:reset-observed", "cache:failed-load-retried", "cache:concurrent", "cache:overlapping-loads", "cache:swapped-global", "cache:observer-samples"},
+		Required:      []string{"regex:matches", "regex:replace", "regex:dynamic-pattern", "regex:invalid-constant-rejected", "cache:seq", "cache:reset-observed", "cache:failed-load-retried", "cache:concurrent", "cache:overlapping-loads", "cache:swapped-global", "cache:observer-samples"},
 		Families: []Family{
 			witnessFamily("C16"),
 			{Name: "regex", N: tierN(150000, 2000000), Run: c16Regex},
+			{Name: "dynpat", N: tierN(20000, 300000), Run: c16DynPattern},
 			{Name: "cacheseq", N: func(string) int { return 5 * 4 }, Run: c16CacheSeq},
 			{Name: "cacheconc", N: tierN(2500, 60000), Run: c16CacheConc},
 			{Name: "global", N: tierN(300, 5000), Run: c16Global},
@@ -523,4 +524,80 @@ func opDigestValue(ce *xpath.Expr, ctx *xdoc.Node) (s string) {
 	default:
 		return fmt.Sprintf("%T", v)
 	}
+}
+
+// c16DynPattern: patterns, subjects and templates come from the document, so one compiled
+// expression meets many different patterns during its life.
+func c16DynPattern(c *Case) {
+	g := c.G()
+	d := xdoc.NewDoc()
+	r := d.Root.AddElem("", "r", "")
+	n := 3 + g.Intn(6)
+	for i := 0; i < n; i++ {
+		var pat string
+		for {
+			pat = g.RegexTop()
+			if _, err := regexp.Compile(pat); err == nil {
+				break
+			}
+		}
+		it := r.AddElem("", "item", "")
+		it.AddAttr("", "v", "", g.Subject())
+		it.AddAttr("", "p", "", pat)
+		it.AddAttr("", "t", "", g.ReplTemplate())
+		if g.Chance(0.5) {
+			it.AddText(g.Subject())
+		}
+	}
+	d.Finish()
+	exprs := []string{
+		"//item[matches(@v, string(@p))]",
+		"count(//item[matches(@v, string(@p))])",
+		"//item[not(matches(., concat(@p, '')))]",
+		"//item[replace(@v, string(@p), string(@t)) = @v]",
+		"string-join(//item[matches(@v, string(@p))]/@v, '|')",
+	}
+	for _, src := range exprs {
+		ast := mustParse(src)
+		want, oof := xref.SafeEval(ast, xref.NewCtx(d.Root))
+		if oof != "" {
+			continue
+		}
+		ce := c.compile(src, func() map[string]interface{} { return docDetail(d, d.Root) })
+		if ce == nil {
+			return
+		}
+		got := c.RunEvaluate(ce, d.Root)
+		c.Count("regex:dynamic-pattern")
+		if !sameValue(got, want) {
+			dd := docDetail(d, d.Root)
+			dd["expr"], dd["expected"], dd["observed"] = src, fmtValue(want), got.String()
+			c.Violation("VALUE", dd)
+			return
+		}
+	}
+	// one compiled scalar expression evaluated on every item in turn
+	for _, src := range []string{"matches(@v, string(@p))", "replace(@v, string(@p), string(@t))", "replace(., string(@p), '<$1>')"} {
+		ast := mustParse(src)
+		ce := c.compile(src, func() map[string]interface{} { return docDetail(d, d.Root) })
+		if ce == nil {
+			return
+		}
+		for _, it := range r.Children {
+			want, oof := xref.SafeEval(ast, xref.NewCtx(it))
+			if oof != "" {
+				continue
+			}
+			got := c.RunEvaluate(ce, it)
+			c.Count("regex:dynamic-pattern")
+			if !sameValue(got, want) {
+				dd := docDetail(d, it)
+				dd["expr"], dd["expected"], dd["observed"] = src, fmtValue(want), got.String()
+				c.Violation("VALUE", dd)
+				return
+			}
+		}
+	}
+	c.Nontrivial(d.XML())
+	c.SampleEvery(2003, func() interface{} { return map[string]interface{}{"family": "dynpat", "doc": d.XML(), "exprs": exprs} })
 }
